@@ -174,8 +174,14 @@ fn run_child(mode: &str, spec: &Spec) -> Result<ChildOut, String> {
         .arg(serde_json::to_string(spec).unwrap())
         .output()
         .map_err(|e| e.to_string())?;
+    let err = String::from_utf8_lossy(&out.stderr);
+    if err.contains("ThreadSanitizer") {
+        // sanitizer build: any report is a violation (data race in the library or between library and harness threads)
+        let head: Vec<&str> = err.lines().filter(|l| l.contains("ThreadSanitizer") || l.contains("rlib_treap") || l.contains("Location is")).take(8).collect();
+        return Err(format!("TSAN {}", head.join(" | ")));
+    }
     if !out.status.success() {
-        return Err(format!("child ended with {:?}: {}", out.status, String::from_utf8_lossy(&out.stderr).chars().take(400).collect::<String>()));
+        return Err(format!("child ended with {:?}: {}", out.status, err.chars().take(400).collect::<String>()));
     }
     serde_json::from_slice(&out.stdout).map_err(|e| format!("child output: {}", e))
 }
@@ -232,9 +238,10 @@ fn judge(spec: &Spec, out: &ChildOut, shape_kind: StreamShape, s_proc: &[u32], s
         StreamShape::Unknown => st.label("stream-oracle-skipped"),
         StreamShape::PerThread => {
             for (i, t) in out.threads.iter().enumerate() {
-                let n = t.prios.len();
+                // (a stream longer than the reference is compared on the reference's length)
+                let n = t.prios.len().min(s_thr.len());
                 vensure!(
-                    n <= s_thr.len() && t.prios[..] == s_thr[..n],
+                    t.prios[..n] == s_thr[..n],
                     "stream/per-thread",
                     "thread {}: its priority stream differs from the stream a thread observes when run alone (first difference at draw {})",
                     i,
@@ -311,7 +318,8 @@ fn main() {
     ctx.assume("reference streams are produced by the library itself in fresh processes, not from knowledge of the generator");
 
     // reference streams
-    let kmax: u32 = ctx.n(450_000, 1_700_000) as u32;
+    let tsan = std::env::var("VERIF_PROFILE").as_deref() == Ok("tsan");
+    let kmax: u32 = if tsan { 60_000 } else { ctx.n(450_000, 1_700_000) as u32 };
     let ref_spec = Spec { threads: vec![(kmax, 7, 0, 0)] };
     let s_proc = match run_child("solo-main", &ref_spec) {
         Ok(o) => o.threads.into_iter().next().unwrap().prios,
@@ -351,7 +359,7 @@ fn main() {
     let sp = s_proc.clone();
     let stt = s_thr.clone();
     let runner = move |spec: &Spec| -> CaseResult {
-        let out = run_child("concurrent", spec).map_err(|e| Violation::new("child-crash", e))?;
+        let out = run_child("concurrent", spec).map_err(|e| if e.starts_with("TSAN ") { Violation::new("tsan/data-race", e) } else { Violation::new("child-crash", e) })?;
         judge(spec, &out, shape_kind, &sp, &stt)
     };
     {
@@ -370,6 +378,11 @@ fn main() {
         });
     }
     ctx.begin();
+    if std::env::var("VERIF_PROFILE").as_deref() == Ok("tsan") {
+        // ThreadSanitizer build (thorough tier): smaller workloads, the happens-before analysis does the work
+        ctx.prop_cfg("tsan-workloads", "c17-workload", 40, 4, spec_strategy(6, 2_000, 6_000), &runner);
+        ctx.finish();
+    }
     let max_threads = 8;
     ctx.prop_cfg("workloads", "c17-workload", ctx.n(24, 200), 12, spec_strategy(max_threads, 20_000, 55_000), &runner);
     ctx.prop_cfg("long-workloads", "c17-workload", ctx.n(4, 40), 6, spec_strategy(8, 100_000, 200_000), &runner);
